@@ -1849,6 +1849,12 @@ static double amplgsl_sf_beta(arglist *al) {
   double a = al->ra[0], b = al->ra[1];
   double beta = 0;
   CHECK_CALL(beta, gsl_sf_beta_e(a, b, &result));
+  if (al->derivs && a + b <= 0 && floor(a + b) == a + b) {
+    /* B(a, b) = 0 here but psi(a + b) has a pole, so the products below
+       are of the form 0 * inf and do not give the (finite) derivative. */
+    format_eval_error(al, '\'', "'");
+    return check_result(al, beta);
+  }
   if (al->derivs) {
     double psi_a_plus_b = gsl_sf_psi(a + b);
     double da_coef = 0, db_coef = 0;
